@@ -77,7 +77,7 @@ _COMMON = dict(
     assumes=['timer settings are positive durations where given: interval > 0, idle > 0 (kopf.timer docs); initial_delay is a number or None (callables: the value they return)',
              'memory.idle_reset_time is only ever set to the current loop time by process_spawning_cause (H7): monotone, never in the future'])
 _BASE = ['no_self_overlap', 'first_run_after_initial_delay', 'start_not_before_scheduled_time', 'after_failure_delay',
-         'patch_carried_over', 'state_threaded', 'results_delivered_into_the_patch_sent']
+         'patch_carried_over', 'state_threaded', 'results_delivered_into_the_patch_sent', 'sleeps_wake_on_stop']
 
 
 def _timer_contract(vc, has_interval, has_idle, sharp_values):
@@ -130,8 +130,13 @@ def _timer_contract(vc, has_interval, has_idle, sharp_values):
         vc.assume(And(new >= memory.idle_reset_time, new <= clock.now), 'idle_reset_time moves forward, never into the future')
         memory.idle_reset_time = new
 
-    sleep = make_sleep(clock)
+    _sleep = make_sleep(clock)
     stopper = Opaque('stopper', is_set=lambda: stop.state, async_event=StopEvent(stop))
+
+    async def sleep(delays, wakeup=None):
+        # every in-memory sleep of a timer can be interrupted by its stopper (a stop is not outlived by a sleeping timer: C09, C20)
+        vc.ensure('sleeps_wake_on_stop', wakeup is stopper.async_event)
+        return await _sleep(delays, wakeup=wakeup)
     body, resource = Opaque('body'), Opaque('resource')
     cause = Opaque('cause', resource=resource, stopper=stopper, logger=NullLogger(), patch=Opaque('patch0'), body=body, kwargs={})
     settings = Opaque('settings')
@@ -319,21 +324,33 @@ def _timer_contract(vc, has_interval, has_idle, sharp_values):
     return ('returned', G.runs)
 
 
-def _mk(hid, has_interval, has_idle, sharp_values, extra_clauses, canaries, doc):
+def _mk(hid, has_interval, has_idle, sharp_values, extra_clauses, canaries, doc, prop_clauses=None):
     def fn(vc):
         return _timer_contract(vc, has_interval, has_idle, sharp_values)
     fn.__doc__ = doc + '\n' + (_timer_contract.__doc__ or '')
     fn.__name__ = hid
-    harness(hid, clauses=_BASE + extra_clauses, canaries=canaries, **_COMMON)(fn)
+    common = dict(_COMMON)
+    if prop_clauses:
+        common['props'] = list(common['props']) + [p for p in prop_clauses if p not in common['props']]
+    harness(hid, clauses=_BASE + extra_clauses, canaries=canaries, prop_clauses=prop_clauses or {}, **common)(fn)
+
+
+# C20 (a stop reaches every timer and is not outlived): a run started on a stop-interrupted idle wait lives through the cleanup;
+# a spin under the stop flag freezes the loop
+_C20 = {'C20': ['not_within_idle_time', 'no_spin_under_stop', 'sleeps_wake_on_stop']}
+# C13 ("while paused ... daemons stopped"): a timer run started although the stop flag (OPERATOR_PAUSING) is raised begins before
+# its scheduled time -- timers would keep firing in a paused operator; a spin under the flag freezes the paused operator
+_C13 = {'C13': ['start_not_before_scheduled_time', 'sleeps_wake_on_stop']}
+_C13x = {'C13': ['start_not_before_scheduled_time', 'sleeps_wake_on_stop', 'not_within_idle_time', 'no_spin_under_stop']}
 
 
 _mk('D5i', True, False, [None, False], ['after_success_interval'], ['canary.never_runs', 'canary.never_sleeps_interval'],
-    'daemons._timer with interval=, non-sharp, no idle=.')
+    'daemons._timer with interval=, non-sharp, no idle=.', prop_clauses=_C13)
 _mk('D5s', True, False, [True], ['after_success_sharp_grid'], ['canary.never_runs'],
-    'daemons._timer with interval= and sharp=True, no idle=.')
+    'daemons._timer with interval= and sharp=True, no idle=.', prop_clauses=_C13)
 _mk('D5x', True, True, [None, False, True], ['after_success_interval', 'after_success_sharp_grid', 'not_within_idle_time', 'no_spin_under_stop'],
-    ['canary.never_runs'], 'daemons._timer with interval= and idle=.')
+    ['canary.never_runs'], 'daemons._timer with interval= and idle=.', prop_clauses={**_C20, **_C13x})
 _mk('D5d', False, True, [None, False, True], ['not_within_idle_time', 'idle_only_waits_for_change', 'no_spin_under_stop'], ['canary.never_runs'],
-    'daemons._timer with idle= only (runs once after every idle period following a change).')
+    'daemons._timer with idle= only (runs once after every idle period following a change).', prop_clauses={**_C20, **_C13x})
 _mk('D5o', False, False, [None, False, True], ['one_shot_without_interval_and_idle'], ['canary.never_runs'],
-    'daemons._timer with neither interval= nor idle=: a one-shot handler (retried until it finishes).')
+    'daemons._timer with neither interval= nor idle=: a one-shot handler (retried until it finishes).', prop_clauses=_C13)
